@@ -81,6 +81,10 @@ behavior B():
     try:
         boom("behavior")
         setprop(self, 1, 1, 3)
+        if not globals().get("warmedUp"):
+            # a module-level global that does not exist until a behaviour creates it at run time
+            globals()["warmedUp"] = True
+            take Act(7)
         take Act(1)
         do Sub()
         take Act(2)
@@ -127,6 +131,7 @@ scenario Main():
     setup:
         require monitor M()
         record boom("record", 1) as r
+        record simulation().currentTime to "rb.pickle"
         require boom("requirement")
     compose:
         wait
@@ -343,7 +348,30 @@ def _digest(sim):
     r = sim.result
     acts = [[[getattr(a, "i", repr(a)) for a in step.get(o, ())] for o in sim.scene.objects] for step in r.actions]
     return json.dumps([r.terminationType.name, acts, sorted((k, repr(v)) for k, v in r.records.items()),
-                       [[round(c, 6) for c in st[0]] for st in [r.trajectory[-1]]]])
+                       [[round(c, 6) for c in st[0]] for st in [r.trajectory[-1]]], _recorded_file()])
+
+
+def _rec_folder():
+    return os.path.join(_state["scratch"], f"rec_{os.getpid()}")
+
+
+def _recorded_file():
+    """What the file recorder of the template wrote for the run that just ended (then removed, so that
+    a later run's file is its own): the time steps of the recorded series."""
+    import pickle
+
+    path = os.path.join(_rec_folder(), "rb.pickle")
+    if not os.path.exists(path):
+        return None
+    try:
+        with open(path, "rb") as f:
+            data = pickle.load(f)
+        series = data.get("values", data) if isinstance(data, dict) else data
+        summary = [len(series), [int(t) for t, _v in series]] if hasattr(series, "__len__") else repr(data)[:80]
+    except Exception as e:     # an unreadable recording is a difference too
+        summary = f"unreadable: {type(e).__name__}"
+    os.remove(path)
+    return summary
 
 
 def _simulate(vfault, scene, plan):
@@ -371,7 +399,8 @@ def _compile_generate(vfault, text, plan=None):
     vfault.COUNTS.clear()
     try:
         random.seed(12345)
-        scenario = scenic.scenarioFromString(text, scenario="Main", mode2D=False)
+        os.makedirs(_rec_folder(), exist_ok=True)
+        scenario = scenic.scenarioFromString(text, scenario="Main", mode2D=False, params={"recordFolder": _rec_folder()})
         scene, _ = scenario.generate(maxIterations=3)
         return ("ok", scenario, scene)
     except BaseException as e:
@@ -399,10 +428,15 @@ def _reuse(vfault, op, text, scenario, scene):
             return "compile " + st
         st, sim = _simulate(vfault, scene2, None)
         return st + ":" + _digest(sim) if st == "ok" else st
+    if op == "simulate-guard-false":
+        # the same scene again, this time with the top-level scenario's precondition false: whatever ran
+        # before, the simulation must be rejected (guards are checked at every start, not only the first)
+        st, sim = _simulate(vfault, scene, ("topguard", 1, "false"))
+        return st + ":" + _digest(sim) if st == "ok" else st
     raise ValueError(op)
 
 
-REUSE_OPS = ["simulate-same", "generate-simulate", "recompile"]
+REUSE_OPS = ["simulate-same", "generate-simulate", "recompile", "simulate-guard-false"]
 
 
 def _job(item):
@@ -431,6 +465,13 @@ def _job(item):
     st, scenario, scene = _compile_generate(vfault, text)
     if st != "ok":
         out["error"] = "clean compile failed: " + st
+        return out
+    if plan == "FRESH":
+        # the reference for a follow-up operation: the same operation in a process that has not run any
+        # simulation before it ("afterwards compiling, sampling and simulating behave as in a fresh process")
+        out["reuse"] = _reuse(vfault, op, text, scenario, scene)
+        out["counts"] = {}
+        out["events"] = []
         return out
     before = _snap(scenario, scene)
     dbefore = _diag(scenario, scene)
@@ -548,14 +589,29 @@ def main(tier):
 
     variants = sorted(VARIANTS)
     ref = pmap(_job, [(v, None, op) for v in variants for op in REUSE_OPS], procs=4, fresh=True)
+    fresh = pmap(_job, [(v, "FRESH", op) for v in variants for op in REUSE_OPS], procs=4, fresh=True)
     refd = {}
     census = {}
+    for r in fresh:
+        if "error" in r:
+            raise MachineryError(f"reference run failed: {r}")
+        refd[(r["variant"], r["op"])] = r["reuse"]     # the operation in a process that simulated nothing before
     for r in ref:
         if "error" in r:
             raise MachineryError(f"reference run failed: {r}")
-        refd[(r["variant"], r["op"])] = r["reuse"]
         census[r["variant"]] = r["counts"]
         refd[(r["variant"], "first")] = r["first_digest"]
+        # the fault-free schedule is a schedule too: after a simulation that ran to completion the follow-up
+        # operation must behave as in a fresh process
+        ck.case((r["variant"], "no-fault", r["op"]), True)
+        if r["reuse"] != refd[(r["variant"], r["op"])]:
+            ck.violation(
+                f"after a fault-free simulation, {r['op']} behaves differently from a fresh process: "
+                f"{str(r['reuse'])[:160]} vs {str(refd[(r['variant'], r['op'])])[:160]}",
+                {"property": "C14", "program": _state["texts"][r["variant"]], "variant": r["variant"], "fault": None,
+                 "reuse_op": r["op"], "result": r, "fresh": refd[(r["variant"], r["op"])]})
+        else:
+            ck.validated()
     gen_census = {}
     for v in variants:  # census of generation-time sites: counted during a clean compile+generate
         st, _a, _b = ("ok", None, None)
@@ -571,7 +627,7 @@ def main(tier):
                 nocc = min(3, census[v].get(site, 0))
             for n in range(1, nocc + 1):
                 for kind in kinds:
-                    ops_ = REUSE_OPS if tier == "thorough" else [REUSE_OPS[k % 3]]
+                    ops_ = REUSE_OPS if tier == "thorough" else [REUSE_OPS[k % len(REUSE_OPS)]]
                     k += 1
                     for op in ops_:
                         jobs.append((v, [site, n, kind], op))
